@@ -32,6 +32,8 @@ worker() {
       echo "$f" | grep -q "time.rs" && checks="$checks C20 C01 C07"
       echo "$f" | grep -q "messages/" && checks="$checks C13 C03 C09 C10 C18"
       checks=$(echo $checks | tr ' ' '\n' | sort -u | tr '\n' ' ')
+      # ONLY="C03 C10": restrict the cross run to these checks (re-validation after changing just those)
+      if [ -n "${ONLY:-}" ]; then checks=$(for c in $checks; do for o in $ONLY; do [ $c = $o ] && echo $c; done; done | tr '\n' ' '); fi
     fi
     for c in $checks; do
       out=$(VERIF_DIR=$W/verif $W/verif/check $c ${TIER:-quick} 2>&1); rc=$?
